@@ -1106,7 +1106,7 @@ def _stable_rhs(fn, blk, i, rhs, uses, params) -> bool:
     reads of self.<attr> are allowed when the function never stores that attribute and calls no method of self after blk[i]
     (calls on other objects are taken not to reach back into self).  All uses must lie in the statements that follow in the
     same block, outside nested functions."""
-    names, attrs, roots = set(), set(), set()
+    names, attrs, roots, subs = set(), set(), set(), set()
 
     def ok(e) -> bool:
         if isinstance(e, ast.Constant):
@@ -1115,6 +1115,23 @@ def _stable_rhs(fn, blk, i, rhs, uses, params) -> bool:
             if not (e.id.isupper() and len(e.id) > 1):
                 names.add(e.id)
             return True
+        if isinstance(e, ast.Subscript) and _const_like(e.value) and _pure_chain(e.value):
+            return ok(e.slice)          # a look-up in a constant table (capitalised name): the table is not changed
+        if isinstance(e, (ast.Attribute, ast.Subscript)) and _alias_chain(e) and not (isinstance(e, ast.Attribute) and _const_like(e) and _pure_chain(e)):
+            # a chain of fields and constant items below a name: stable while none of those fields/items is stored
+            c_ = e
+            depth_ = 0
+            while isinstance(c_, (ast.Attribute, ast.Subscript)):
+                if isinstance(c_, ast.Attribute):
+                    attrs.add(c_.attr)
+                else:
+                    subs.add(ast.unparse(c_.value))
+                c_ = c_.value
+                depth_ += 1
+            if isinstance(c_, ast.Name) and depth_ >= 2:
+                if c_.id != "self":
+                    roots.add(c_.id)
+                return True
         if isinstance(e, ast.Attribute):
             if _const_like(e) and _pure_chain(e):
                 return True
@@ -1177,6 +1194,8 @@ def _stable_rhs(fn, blk, i, rhs, uses, params) -> bool:
                 r = r.value
             root = r.id if isinstance(r, ast.Name) else None
             if isinstance(x, ast.Attribute) and x.attr in attrs:
+                return False
+            if isinstance(x, ast.Subscript) and ast.unparse(x.value) in subs:
                 return False
         elif isinstance(x, ast.Call) and isinstance(x.func, ast.Attribute):
             r = x.func.value
